@@ -27,6 +27,19 @@ def mismatch (m s : String) : String := s!"MODEL-SPEC-MISMATCH model={m} spec={s
 def searchOps : List String :=
   ["pq", "pqraw", "tmeta", "rle", "ipc", "ipcraw", "ocf", "ocfraw", "csv", "json", "variant", "flight", "dict"]
 
+/-- Avro `read_varint` + zig-zag; model and ULEB128-u64 specification must agree on every input -/
+def avlqAnswer (h : String) : String :=
+  match parseHex h with
+  | none => "bad-op"
+  | some bs =>
+    let m := match avroReadVarint bs with
+      | none => "ERR"
+      | some (v, n) => s!"ok {zigzagInt v} {n}"
+    let s := match specU64 bs with
+      | none => "ERR"
+      | some (v, n) => s!"ok {Spec.unzigzag v} {n}"
+    if m = s then m else mismatch m s
+
 def handle (toks : List String) : String :=
   match toks with
   -- thrift read_vlq + zig-zag, observed through `num_rows` of a footer
@@ -95,17 +108,8 @@ def handle (toks : List String) : String :=
       | .error _ => "ERR"
       | .ok _ => "ok"
   -- Avro read_varint / get_long, observed through a record with one `long` field
-  | ["avlq", h] =>
-    match parseHex h with
-    | none => "bad-op"
-    | some bs =>
-      let m := match avroReadVarint bs with
-        | none => "ERR"
-        | some (v, n) => s!"ok {zigzagInt v} {n}"
-      let s := match specU64 bs with
-        | none => "ERR"
-        | some (v, n) => s!"ok {Spec.unzigzag v} {n}"
-      if m = s then m else mismatch m s
+  | ["avlq", h] => avlqAnswer h
+  | ["avlqf", h] => avlqAnswer h
   -- streaming VLQDecoder::long, observed through the OCF block header (count, size)
   | ["ablock", h] =>
     match parseHex h with
@@ -119,9 +123,14 @@ def handle (toks : List String) : String :=
   | ["ipcslice", bl, off, len, rows] =>
     match bl.toNat?, parseInt off, parseInt len, rows.toNat? with
     | some bl, some off, some len, some rows =>
-      match ipcSlice bl off len with
+      -- the writer emits an all-valid bitmap of ceil(rows/8) bytes at offset 0 as buffer 0;
+      -- `next_buffer` slices it first, then the patched values buffer
+      match ipcSlice bl 0 ((rows + 7) / 8) with
       | .error e => showErr e
-      | .ok (_, l) => if rows * 4 ≤ l then "ok" else "ERR"
+      | .ok _ =>
+        match ipcSlice bl off len with
+        | .error e => showErr e
+        | .ok (_, l) => if rows * 4 ≤ l then "ok" else "ERR"
     | _, _, _, _ => "bad-op"
   | op :: _ => if searchOps.contains op then "SKIP" else "bad-op"
   | _ => "bad-op"
